@@ -125,6 +125,12 @@ def hash_shard(config, seed, n_examples, import_ctx="top"):
     import pysnark.ggh_hash as gh
     from pysnark.poseidon_constants import poseidon_constants
     consts = poseidon_constants[config]
+    if import_ctx in ("first-call-false-guard", "first-call-true-guard"):
+        # the first hash / permutation of the process happens inside a guarded region (whatever is set up lazily on first
+        # use is set up there)
+        env.reset(p, 16, 8)
+        gcond = rt.PrivVal(0 if import_ctx == "first-call-false-guard" else 1)
+        rt.guarded(gcond)(lambda: (ph.poseidon_hash([rt.PrivVal(3), rt.PrivVal(1)]), gh.ggh_hash([rt.PrivVal(1), rt.PrivVal(0)]), rt.PrivVal(0))[2])()
     found = {}
 
     def fail(case, msg, key):
@@ -442,7 +448,7 @@ def run(ctx):
     jobs = [dict(config=c, seed=ctx.seed * 1000 + 13 * i + k, n_examples=n) for i, c in enumerate(CONFIG_MODULE) for k in range(reps)]
     # the same differential after a first import inside a guarded region / under ignore_errors
     jobs += [dict(config=c, seed=ctx.seed * 1000 + 700 + 7 * i + k, n_examples=5 if ctx.tier == "quick" else 150, import_ctx=ic)
-             for i, c in enumerate(CONFIG_MODULE) for k, ic in enumerate(["false-guard", "true-guard", "ignore", "lazy-branch"])]
+             for i, c in enumerate(CONFIG_MODULE) for k, ic in enumerate(["false-guard", "true-guard", "ignore", "lazy-branch", "first-call-false-guard", "first-call-true-guard"])]
     total = core.run_shards("harness.checks.c20", "hash_shard", jobs)
     total.merge_json(core.run_shards_optimised("harness.checks.c20", "hash_shard",
                                                [dict(config=c, seed=ctx.seed * 1000 + 900 + i, n_examples=12) for i, c in enumerate(CONFIG_MODULE)]).to_json())
